@@ -7,7 +7,7 @@ for f in sorted(glob.glob('/verif/seeded/*/meta.json')):
     rows.append(m)
 out = ["# Which checks catch which deliberately broken versions of wharf", "",
        "Each entry is a change to itchio/wharf that compiles and passes the pinned test suite but breaks a property.",
-       "ids ending in a/b/c/d/e/g/h + A/B: waves 1-5, 7 and 8 (wave 6 were readers of the unchanged code, they made no change), written by independent sub-agents that saw only the property text and their own scratch worktree;",
+       "ids ending in a/b/c/d/e/g/h/j + A/B: waves 1-5, 7, 8 and 10 (wave 6 were readers of the unchanged code, they made no change), written by independent sub-agents that saw only the property text and their own scratch worktree;",
        "`revert-*`: the unrepaired behaviour of one `fix:` commit. Every change was confirmed in a scratch worktree",
        "(suite passes with it, demonstration fails with it and passes without it) before the checks were run against a",
        "scratch copy of /repo with the change applied (`tools_mutant.sh`, VERIF_REPO override; /repo itself untouched).", "",
